@@ -67,6 +67,7 @@ type reference struct {
 }
 
 type readyCallback struct {
+	root    *Subscription
 	refMap  map[*Subscription]bool
 	cb      func()
 	loading int
@@ -255,6 +256,7 @@ func (s *Subscription) OnReady(cb func()) {
 	}
 
 	s.onLoaded(&readyCallback{
+		root:   s,
 		refMap: make(map[*Subscription]bool),
 		cb:     cb,
 	})
@@ -913,6 +915,7 @@ func (s *Subscription) Dispose() {
 		}
 		s.resourceSub = nil
 	}
+
 }
 
 // Unsend sets its indirectsent to zero for itself and counts down 1 for all its
